@@ -9,7 +9,7 @@ use vcommon::Rng;
 
 pub struct C06;
 
-use vcommon::ids::{check_output, draw_limit, id_program, IdLedger};
+use vcommon::ids::{check_output, draw_fastrand_seed, draw_limit, id_program_ordered, IdLedger};
 
 pub fn judge(plan: &ExecPlan, stats: &mut Stats) -> (Vec<(String, String, String)>, ExecResult) {
     let mut fails = vec![];
@@ -57,7 +57,7 @@ pub fn judge(plan: &ExecPlan, stats: &mut Stats) -> (Vec<(String, String, String
     (fails, r)
 }
 
-pub fn draw_plan(rng: &mut Rng, index: u64, tier: Tier) -> ExecPlan {
+pub fn draw_plan(rng: &mut Rng, index: u64, tier: Tier, stats: &mut Stats) -> ExecPlan {
     let volume = tier == Tier::Thorough && index % 20_000 == 19_999;
     let big = index % 61 == 60;
     let ntasks = if volume {
@@ -74,7 +74,7 @@ pub fn draw_plan(rng: &mut Rng, index: u64, tier: Tier) -> ExecPlan {
         for k in 0..h {
             let n = if volume { 100_000 } else { *rng.pick(&[0usize, 1, 2, 3, 5, 10, 50]) };
             let limits: Vec<u64> = (0..rng.usize(6)).map(|_| draw_limit(rng)).collect();
-            let mut it = Item::simple(&format!("ids{n}-t{t}-{k}"), &id_program(n, &limits));
+            let mut it = Item::simple(&format!("ids{n}-t{t}-{k}"), &id_program_ordered(n, &limits, rng.chance(1, 2)));
             it.fmt = Fmt { compressed: rng.chance(1, 3), precision: *rng.pick(&[0usize, 5, 10, 20]) };
             it.nondet = true;
             items.push(it);
@@ -88,7 +88,7 @@ pub fn draw_plan(rng: &mut Rng, index: u64, tier: Tier) -> ExecPlan {
             _ => Sched::Pct(3),
         },
         sched_seed: rng.next_u64(),
-        fastrand_seed: rng.next_u64(),
+        fastrand_seed: draw_fastrand_seed(rng, stats),
         yield_in_loader: false,
         tasks,
     }
@@ -109,7 +109,7 @@ impl Prop for C06 {
     }
     fn run(&self, seed: u64, index: u64, tier: Tier, stats: &mut Stats) -> Vec<Violation> {
         let mut rng = Rng::new(seed);
-        let plan = draw_plan(&mut rng, index, tier);
+        let plan = draw_plan(&mut rng, index, tier, stats);
         stats.inc("runs");
         stats.inc(&format!("stratum:tasks={}", plan.tasks.len().min(5)));
         stats.inc(&format!("stratum:sched={:?}", plan.sched));
